@@ -15,6 +15,11 @@ class Fail(Exception):
     pass
 
 
+# which properties make promises about which request (used to attribute panics, hangs and undecodable replies)
+REQ_PROPS = {'into': ['C12', 'C06'], 'expire': ['C10'], 'spoll': ['C11'], 'lockall': ['C11'], 'sdrop': ['C06', 'C11'],
+             'cancel': ['C06'], 'lock': ['C07', 'C08', 'C15', 'C06'], 'count': ['C04'], 'keys': ['C04'], 'drop': ['C02', 'C04'], 'op': ['C02', 'C15']}
+
+
 def parse_reply(reply):
     if ' | ' not in reply:
         return reply.strip(), None
@@ -133,7 +138,8 @@ def check_case(kind, pairs):
             continue
         # ---- C13: no library panic / poison, ever
         if 'panic:' in res or res.startswith('poisoned') or (snap or '').startswith('[poisoned]'):
-            fail(['C13'], i, f'library panic or poisoned lock: {reply}')
+            # a call that panics also fails whatever the property promises about that call
+            fail(['C13'] + REQ_PROPS.get(cmd, []) + (['C14'] if kind == 'pool' else []), i, f'library panic or poisoned lock on `{req}`: {reply}')
             break
         if res in ('bad', 'bad-op', 'would-block'):
             # not an implementation behaviour; stop judging this case
@@ -141,7 +147,10 @@ def check_case(kind, pairs):
         try:
             check_one(sh, kind, toks, res, i, fail)
         except Fail as e:
-            fail(['C05'], i, f'oracle cannot follow the trace: {e}')
+            fail(['C05'] + REQ_PROPS.get(cmd, []), i, f'oracle cannot follow the trace: {e}')
+            break
+        except Exception as e:  # malformed / unexpected reply
+            fail(['C05'] + REQ_PROPS.get(cmd, []), i, f'unexpected reply `{reply}` to `{req}`: {e!r}')
             break
         # busy periods per key (for C09): a key is busy while it is held by any guard or awaited
         busy_now = set(k for k in sh.present() if not sh.free(k))
@@ -435,8 +444,10 @@ def check_one(sh, kind, toks, res, i, fail):
             exp = 'end' if not st['items'] else 'pending'
         if res != exp:
             if res.startswith('item'):
-                m = re.match(r'item (\d+):(\d+)', res)
-                k = int(m.group(2))
+                m = re.match(r'item (\S+):(\d+)', res)
+                k = int(m.group(2)) if m else -1
+                if m and k not in st['items'].values() and k not in [kk for kk in sh.guards.values()]:
+                    fail(['C11'], i, f'stream yielded key {k} which was not part of its snapshot')
                 if k not in sh.vals:
                     fail(['C11'], i, f'stream yielded key {k} which has no value')
             fail(['C11'], i, f'spoll answered {res}, expected {exp}')
